@@ -190,22 +190,24 @@ class Solver:
         self._compute_powertrain_inertia()
         if self.__powertrain.time:
             initial_time = self.__powertrain.time[-1]
-            final_time = initial_time + simulation_time + time_discretization
         else:
             initial_time = Time(value=0, unit=time_discretization.unit)
-            final_time = initial_time + simulation_time + time_discretization
             self.__powertrain_is_locked = False
             self.__powertrain.update_time(initial_time)
             self._compute_powertrain_variables(motor_control=motor_control)
 
-        for k in np.arange(
-            initial_time.value + time_discretization.value,
-            final_time.value,
-            time_discretization.value
-        ):
+        n_steps = int(np.ceil(
+            round(simulation_time/time_discretization, 9)
+        ))
+        for k in range(1, n_steps + 1):
 
             self.__powertrain.update_time(
-                Time(value=float(k), unit=time_discretization.unit)
+                Time(
+                    value=float(
+                        initial_time.value + k*time_discretization.value
+                    ),
+                    unit=time_discretization.unit
+                )
             )
             self._time_integration(time_discretization=time_discretization)
             self._compute_powertrain_variables(motor_control=motor_control)
